@@ -356,6 +356,26 @@ func safeEncode(msg interface{}) (b []byte, pan interface{}) {
 	return codec.GetCodecManager().Encode(codec.CodecTypeSeata, msg), nil
 }
 
+// stableAfterDecoy: the body Encode returned belongs to its caller (the frame writer copies it into the frame
+// later, while other goroutines encode their own messages): it must still be the same bytes after the codec
+// manager has encoded other messages, shorter and longer ones.
+func stableAfterDecoy(real []byte) bool {
+	if real == nil {
+		return true
+	}
+	snap := append([]byte(nil), real...)
+	for _, d := range []interface{}{
+		message.GlobalCommitRequest{AbstractGlobalEndRequest: message.AbstractGlobalEndRequest{Xid: "decoy"}},
+		message.BranchRegisterRequest{Xid: strings.Repeat("decoy-xid:", 40), ResourceId: strings.Repeat("r", 300), LockKey: strings.Repeat("t:1;", 500)},
+		message.GlobalBeginRequest{TransactionName: "d"},
+	} {
+		if _, pan := safeEncode(d); pan != nil {
+			return true // a panicking encoder is reported where that message is the subject
+		}
+	}
+	return bytes.Equal(real, snap)
+}
+
 func safeDecode(b []byte) (v interface{}, pan interface{}) {
 	defer func() {
 		if p := recover(); p != nil {
@@ -580,7 +600,7 @@ func (tb *table) runVector(w *trace.Writer, i int, v vector, random bool, r *ran
 		got, left := tb.decode(v.Ty, real)
 		same = left == 0 && sameVals(got, tb.wireNormal(v.Ty, vals, used))
 	}
-	t.Add("Encode", "same", same, "len", len(real), "cut", cut, "sig", sig)
+	t.Add("Encode", "same", same, "stable", stableAfterDecoy(real), "len", len(real), "cut", cut, "sig", sig)
 
 	// ---- Decode: the canonical v1 bytes (independent encoder) through the real decoder
 	wn := tb.wireNormal(v.Ty, vals, canon)
@@ -658,7 +678,7 @@ func (tb *table) runSweep(w *trace.Writer, i int, v vector, r *rand.Rand, thorou
 	for j := 0; j < nr && encOK && decOK; j++ {
 		try(uint64(r.Int63n(1 << 32)))
 	}
-	t.Add("Encode", "same", encOK, "len", baseLen, "cut", -1, "detail", bad, "sig", sig)
+	t.Add("Encode", "same", encOK, "stable", true, "len", baseLen, "cut", -1, "detail", bad, "sig", sig)
 	t.Add("Decode", "same", decOK, "all", allOK, "detail", bad, "sig", sig)
 	t.Add("End", "sig", sig)
 }
